@@ -25,6 +25,7 @@ def body(led):
     c13_stiffk.body(led)
     py_stiffeners.check_bladestiff1d(led)
     py_stiffeners.check_bladestiff2d(led)
+    py_stiffeners.check_tstiff2d_kG0_kM(led)
 
 
 def main():
